@@ -43,7 +43,7 @@ func rangeBody(size int) []byte {
 	return b
 }
 
-func runRangeE2E(dir, backend, in, out, sizes string) error {
+func runRangeE2E(dir, backend, in, out, sizes, transport string) error {
 	d := &driver{}
 	d.open(dir, backend)
 	defer d.close()
@@ -80,6 +80,14 @@ func runRangeE2E(dir, backend, in, out, sizes string) error {
 		if conn != nil {
 			conn.Close()
 		}
+		if transport == "tunnel" {
+			c, r, err := d.openTunnel()
+			if err != nil {
+				return err
+			}
+			conn, br = c, r
+			return nil
+		}
 		c, err := net.DialTimeout("tcp", d.phost, 3*time.Second)
 		if err != nil {
 			return err
@@ -95,7 +103,11 @@ func runRangeE2E(dir, backend, in, out, sizes string) error {
 				}
 			}
 			var b bytes.Buffer
-			fmt.Fprintf(&b, "GET http://%s/c%d/r HTTP/1.1\r\nHost: %s\r\n", d.ohost, 1000+sz, d.ohost)
+			if transport == "tunnel" {
+				fmt.Fprintf(&b, "GET /c%d/r HTTP/1.1\r\nHost: %s\r\n", 1000+sz, d.ohost)
+			} else {
+				fmt.Fprintf(&b, "GET http://%s/c%d/r HTTP/1.1\r\nHost: %s\r\n", d.ohost, 1000+sz, d.ohost)
+			}
 			if withRange {
 				fmt.Fprintf(&b, "Range: %s\r\n", value)
 			}
